@@ -132,9 +132,10 @@ def _post_numba_cgutils(cgutils):
 # ---------------------------------------------------------------- the finder
 
 class _Finder(importlib.abc.MetaPathFinder, importlib.abc.Loader):
-    def __init__(self, repo_src, builddir):
+    def __init__(self, repo_src, builddir, kernel_signatures):
         self.repo_src = repo_src
         self.builddir = builddir
+        self.kernel_signatures = kernel_signatures      # (path, source text) read when the build was pinned
         self.ext = None
 
     def find_spec(self, fullname, path=None, target=None):
@@ -143,10 +144,7 @@ class _Finder(importlib.abc.MetaPathFinder, importlib.abc.Loader):
         if fullname == "awkward._ext":
             return importlib.machinery.ModuleSpec(fullname, self, origin="akext")
         if fullname == "awkward._kernel_signatures":
-            p = os.path.join(self.repo_src, "awkward", "_kernel_signatures.py")
-            if not os.path.exists(p):
-                p = os.path.join(self.builddir, "gen", "src", "awkward", "_kernel_signatures.py")
-            return importlib.util.spec_from_file_location(fullname, p)
+            return importlib.machinery.ModuleSpec(fullname, self, origin=self.kernel_signatures[0])
         if fullname == "pkg_resources":
             return importlib.machinery.ModuleSpec(fullname, self, origin="lanep stub")
         if fullname in _POST_EXEC:
@@ -167,6 +165,10 @@ class _Finder(importlib.abc.MetaPathFinder, importlib.abc.Loader):
         return None
 
     def exec_module(self, module):
+        if module.__name__ == "awkward._kernel_signatures":
+            path, text = self.kernel_signatures
+            module.__file__ = path
+            exec(compile(text, path, "exec"), module.__dict__)
         return None
 
 
@@ -438,16 +440,29 @@ def load(variant="plain", verbose=False):
         raise LanePError("a module named 'awkward' is already imported from %s; lanep.load() must run before "
                          "`import awkward`" % getattr(loaded, "__file__", "?"))
 
-    builddir = os.environ.get("LANEP_BUILDDIR")
-    if not builddir:
-        builddir = vbuild.ensure(variant, verbose=verbose)
-    for name in ("libawkward.so", "libawkward-cpu-kernels.so", "libakbridge.so"):
-        if not os.path.exists(os.path.join(builddir, name)):
-            raise LanePError("%s is missing from %s" % (name, builddir))
-
-    # (a) the bridge; akext uses the same libawkward.so instance (rpath $ORIGIN of libakbridge.so)
     from akext import _lib
-    _lib.init(builddir)
+    builddir = os.environ.get("LANEP_BUILDDIR")
+    kernel_signatures = None
+    for attempt in range(4):
+        if not os.environ.get("LANEP_BUILDDIR"):
+            builddir = vbuild.ensure(variant, verbose=verbose)
+        # vbuild prunes old output directories while other jobs build: pin everything this process needs right
+        # away (an already mapped library stays usable, and dlopen() of the very same path string finds it again)
+        try:
+            import ctypes
+            for name in ("libawkward-cpu-kernels.so", "libawkward.so"):
+                ctypes.CDLL(os.path.join(builddir, name), mode=ctypes.RTLD_GLOBAL)
+            sigpath = os.path.join(repo_src, "awkward", "_kernel_signatures.py")
+            if not os.path.exists(sigpath):
+                sigpath = os.path.join(builddir, "gen", "src", "awkward", "_kernel_signatures.py")
+            with open(sigpath) as f:
+                kernel_signatures = (sigpath, f.read())
+            # (a) the bridge; akext uses the same libawkward.so instance (rpath $ORIGIN of libakbridge.so)
+            _lib.init(builddir)
+            break
+        except OSError as err:
+            if os.environ.get("LANEP_BUILDDIR") or attempt == 3:
+                raise LanePError("cannot load the libraries from %s: %s" % (builddir, err))
 
     # (d) shims that must be in place before the package is imported
     _shim_numpy_aliases()
@@ -458,7 +473,7 @@ def load(variant="plain", verbose=False):
         f()
 
     # (b) finder
-    finder = _Finder(repo_src, builddir)
+    finder = _Finder(repo_src, builddir, kernel_signatures)
     sys.meta_path.insert(0, finder)
     if not _need_pkg_resources_stub():
         # a real pkg_resources exists: patch its resource_filename for the 'awkward' package only
